@@ -449,9 +449,38 @@ pub struct PoolStats {
 }
 
 pub const RUN_STACK: usize = 64 << 20;
-pub const STUCK_AFTER_SECS: u64 = 150;
+/// consecutive 20 ms polls in which the simulation thread was asleep (state S) with no CPU progress
+pub const STUCK_POLLS: u32 = 12;
 /// at most this many edge scheduling points per run (deterministic bound on the cost of a run)
 pub const EDGE_SWITCH_BUDGET: u64 = 1_500_000;
+
+// A stuck run leaves its threads behind, and one of them still HOLDS the lock it was preempted in.  If that lock
+// is process-wide (a `static Mutex` in the code under test) every later run in this process would park on it too:
+// the process is tainted.  Worker processes therefore never retry in place: they report the run and the next
+// coarser preemption level and exit; the driver restarts a fresh worker at that run (framework::run_batch).
+static TAINTED: std::sync::atomic::AtomicBool = std::sync::atomic::AtomicBool::new(false);
+static RESPAWN_MODE: std::sync::atomic::AtomicBool = std::sync::atomic::AtomicBool::new(false);
+/// preemption level the next parallel run starts at: 0 as planned, 1 no edge points, 2 task-granular
+static START_LEVEL: std::sync::atomic::AtomicU8 = std::sync::atomic::AtomicU8::new(0);
+
+pub fn tainted() -> bool {
+    TAINTED.load(std::sync::atomic::Ordering::SeqCst)
+}
+pub fn set_tainted() {
+    TAINTED.store(true, std::sync::atomic::Ordering::SeqCst)
+}
+pub fn respawn_mode() -> bool {
+    RESPAWN_MODE.load(std::sync::atomic::Ordering::SeqCst)
+}
+pub fn set_respawn_mode(on: bool) {
+    RESPAWN_MODE.store(on, std::sync::atomic::Ordering::SeqCst)
+}
+pub fn start_level() -> u8 {
+    START_LEVEL.load(std::sync::atomic::Ordering::SeqCst)
+}
+pub fn set_start_level(l: u8) {
+    START_LEVEL.store(l, std::sync::atomic::Ordering::SeqCst)
+}
 
 fn panic_text(p: Box<dyn std::any::Any + Send>) -> String {
     if let Some(s) = p.downcast_ref::<&str>() {
@@ -461,6 +490,18 @@ fn panic_text(p: Box<dyn std::any::Any + Send>) -> String {
     } else {
         "<non-string panic>".into()
     }
+}
+
+/// (state letter, utime+stime in clock ticks) of a thread of this process, from /proc.
+fn thread_state(tid: i32) -> (u8, u64) {
+    let Ok(s) = std::fs::read_to_string(format!("/proc/self/task/{}/stat", tid)) else { return (b'?', 0) };
+    // the command name is in parentheses and may contain spaces: fields start after the last ')'
+    let Some(p) = s.rfind(')') else { return (b'?', 0) };
+    let f: Vec<&str> = s[p + 1..].split_whitespace().collect();
+    let state = f.first().and_then(|x| x.bytes().next()).unwrap_or(b'?');
+    let ut: u64 = f.get(11).and_then(|x| x.parse().ok()).unwrap_or(0);
+    let st: u64 = f.get(12).and_then(|x| x.parse().ok()).unwrap_or(0);
+    (state, ut + st)
 }
 
 /// Run `f` on a fresh OS thread with the given entropy, outside any simulated
@@ -493,9 +534,11 @@ mod simexec {
         let slot: Arc<Mutex<Option<T>>> = Arc::new(Mutex::new(None));
         let slot2 = slot.clone();
         let (done_tx, done_rx) = std::sync::mpsc::channel::<()>();
+        let (tid_tx, tid_rx) = std::sync::mpsc::channel::<i32>();
         let h = std::thread::Builder::new()
             .stack_size(RUN_STACK)
             .spawn(move || {
+                let _ = tid_tx.send(unsafe { libc::gettid() });
                 QUIET.with(|q| q.set(true));
                 set_thread_entropy(entropy);
                 let sched = SimScheduler::new(&knobs, replay, shared2);
@@ -531,19 +574,39 @@ mod simexec {
             })
             .expect("spawn sim thread");
         // A task preempted while it holds a std lock (code under test that brings its own Mutex) blocks the
-        // whole single-threaded simulation for ever.  That is an artefact of cooperative scheduling, not a
-        // deadlock of the code: give up on this run (the thread is abandoned) and let the caller retry with
-        // coarser preemption.
-        if done_rx.recv_timeout(std::time::Duration::from_secs(STUCK_AFTER_SECS)).is_err() {
-            log::set_max_level(log::LevelFilter::Off);
-            std::mem::forget(h);
-            return SimOutcome {
-                value: None,
-                abort_msg: Some("STUCK-IN-SIM: no progress; a task was probably preempted while holding a std lock".into()),
-                schedule: ScheduleRec::default(),
-                stats: RunStats::default(),
-                pool: Default::default(),
-            };
+        // whole single-threaded simulation for ever: the next task that wants the lock parks the OS thread.
+        // That is an artefact of cooperative scheduling, not a deadlock of the code.  It is recognised by the
+        // STATE of the simulation thread, not by a wall-clock deadline (a slow but live run is never cut off):
+        // a live run is always runnable; a run parked on a lock sleeps and its CPU time stands still.
+        let tid = tid_rx.recv().unwrap_or(0);
+        let mut asleep_polls = 0u32;
+        let mut last_cpu = u64::MAX;
+        loop {
+            match done_rx.recv_timeout(std::time::Duration::from_millis(20)) {
+                Ok(()) => break,
+                Err(std::sync::mpsc::RecvTimeoutError::Disconnected) => break,
+                Err(std::sync::mpsc::RecvTimeoutError::Timeout) => {
+                    let (state, cpu) = thread_state(tid);
+                    if state == b'S' && cpu == last_cpu {
+                        asleep_polls += 1;
+                    } else {
+                        asleep_polls = 0;
+                    }
+                    last_cpu = cpu;
+                    if asleep_polls >= STUCK_POLLS {
+                        log::set_max_level(log::LevelFilter::Off);
+                        set_tainted();
+                        std::mem::forget(h);
+                        return SimOutcome {
+                            value: None,
+                            abort_msg: Some("STUCK-IN-SIM: the simulation thread sleeps without consuming CPU; a task was preempted while holding a std lock".into()),
+                            schedule: ScheduleRec::default(),
+                            stats: RunStats::default(),
+                            pool: Default::default(),
+                        };
+                    }
+                }
+            }
         }
         let (abort_msg, tl_stats, pool) = match h.join() {
             Ok(x) => x,
